@@ -174,7 +174,9 @@ def run_one(ck, prog):
             if isinstance(x, tuple) and x[0] == "var":
                 defs = list(ctx.prov.expand(x))
                 withp = [d for d in defs if mentions(d, ctx.prov, lambda z: z[0] == "param")]
-                if withp and len(withp) < len(defs):
+                # (an Option parameter unpacked with a default - `match len { Some(l) => l, None => 0 }` - is not a dropped argument)
+                opt_only = all(str(fn["locals"][z[1]]["ty"]).startswith("core::option::Option<") for d in withp for z in walk_deep(d, ctx.prov) if z[0] == "param")
+                if withp and len(withp) < len(defs) and not opt_only:
                     dropped.append(fname)
         ck.ob("C18.4", f"new_{m.group(1)}|arguments-passed-on-every-path", not dropped, fn=p,
               detail=f"entry field(s) {dropped} carry the caller's argument on some paths and a constant on others: the operation then differs from the direct system call for the inputs on the other branch")
